@@ -68,6 +68,7 @@ let proto file =
   let prev_status : (int, string) Hashtbl.t = Hashtbl.create 8 in
   let frames = ref 0 in
   let ever_pending : (int * aclass * n * n, bool) Hashtbl.t = Hashtbl.create 16 in
+  let fresh_yes = ref 0 and fresh_no = ref 0 and dup_states = ref 0 in
   let served_hist : (n * aclass * n, n list) Hashtbl.t = Hashtbl.create 16 in
   let get p = match peer_of !g (n_of_int p) with Some pr -> pr | None -> failwith "no such peer" in
   let ident pr (e : n) : string =
@@ -303,7 +304,11 @@ let proto file =
          let o = { fo_downloads = dls_flagged; fo_conn_events = evs; fo_clients = List.map n_of_int clients_pre; fo_status = st;
                    fo_srv_poll = (if pi = 0 || true then List.map n_of_int froms else []);
                    fo_cli_poll = nat_of_int (List.length froms) } in
+         (* the premise of C01_at_most_one_entity_per_uuid (every arriving EntitySpawn is fresh), evaluated on the
+            state before the frame: reported, never an alarm (the premise has known slack) *)
+         (try (if frame_freshb (get pi) o then incr fresh_yes else incr fresh_no) with _ -> ());
          g := gstep !g (StFrame (pn, o));
+         (try (if not (uuid_uniqueb (get pi)) then incr dup_states) with _ -> ());
          let pr = get pi in
          List.iter (fun ((kn, a), v) ->
              let k = if kn = n_of_int 1 then Some AMesh else if kn = n_of_int 2 then Some AImage else if kn = n_of_int 3 then Some AAudio else None in
@@ -383,5 +388,6 @@ let proto file =
                               if l <> [] then Printf.printf "LEFTOVER %s->%d: %s\n" (ds src) p (String.concat " | " (List.map (msg_string pr) l))) (inbox_all pr)
     | None -> ()
   done;
+  Printf.printf "PREMISE spawns_fresh holds=%d fails=%d duplicate_states=%d\n" !fresh_yes !fresh_no !dup_states;
   Printf.printf "FRAMES %d LEFT %d\n" !frames !left
 
